@@ -6,7 +6,7 @@ pid = sys.argv[1]
 rnd = sys.argv[2] if len(sys.argv) > 2 else "1"
 wt = f"/tmp/wt-{pid}" if rnd == "1" else f"/tmp/w{rnd}-{pid}"
 src = f"{wt}/mutants"
-tag = "m" if rnd == "1" else {"2": "n", "3": "p", "4": "q", "5": "r", "6": "s", "7": "t", "8": "u"}[rnd]
+tag = "m" if rnd == "1" else {"2": "n", "3": "p", "4": "q", "5": "r", "6": "s", "7": "t", "8": "u", "9": "v"}[rnd]
 out = []
 for k in (1, 2, 3, 4, 5, 6):
     if not os.path.exists(f"{src}/m{k}.diff"):
